@@ -64,6 +64,11 @@ package project
 //@   ensures config-or-error: result.1 == nil ==> result.0 != nil
 //@   modifies heap
 //@   loop over slices.Sorted(): invariant errors-are-errors: forall j: int :: 0 <= j && j < len(errs) ==> errs[j] != nil
+// C19 (the domain the round trip is stated for): every requirement whose version is not valid
+// canonical semver adds an error, so a configuration that loads has canonical versions.
+//@ func project.LoadConfigBytes variant validates
+//@   modifies heap
+//@   loop over slices.Sorted(): step a-non-canonical-version-is-reported: when (!semvalid(old(c.Requirements)[k].Version) || semcanon(old(c.Requirements)[k].Version) != old(c.Requirements)[k].Version) ensures len(errs) == old(len(errs)) + 1
 //@ func project.LoadConfigFile
 //@   ensures config-or-error: result.1 == nil ==> result.0 != nil
 //@   modifies heap
